@@ -3,11 +3,12 @@
    nat, positive, N, Z stay Coq datatypes. *)
 From Coq Require Import ExtrOcamlBasic.
 From Coq Require Import List ZArith NArith.
-From Sod.Model Require Import Base FieldIndex ObjIndex DB Instance Layout Clone Descr Norm.
+From Sod.Model Require Import Base FieldIndex ObjIndex DB Instance Layout Clone Descr Norm Path.
 Extraction Language OCaml.
 Extraction "model.ml" clone_value erase sharing fresh_distinct max_loc camel_to_snake dir_name object_file_name step step_fg init_state run mk_hooks new_handle empty_disk disk_uuids
   uuid_ext uuid_shaped listed_uuid
   time_key key_time in_unixnano_range normalise
+  vfbn field_by_name ptname pleaf_id
   rec_fds field_descriptors compatible_with fields_compatible_with reach split_on dot
   key_ltb key_eqb oi_control control_mem file_of suffix_of indexed_uuids
   Z.add Z.mul Z.opp Z.of_nat Z.of_N N.of_nat N.to_nat Z.to_nat Nat.add.
